@@ -11,18 +11,18 @@ PROP = {
         # the *.txt regression inputs of (a) are replayed through it (their first line names the sub).
         {"target": "c15_reply_rc", "sub": "reply_parser",
          "quick": {"cases": 6000, "max_size": 100, "workers": 4, "case_alarm": 60},
-         "thorough": {"cases": 300000, "max_size": 100, "workers": 4, "case_alarm": 60}},
+         "thorough": {"cases": 150000, "max_size": 100, "workers": 4, "case_alarm": 60}},
         # (b) lookup_lifecycle (rapidcheck + virtual clock + real UDP over loopback)
         {"target": "c15_lifecycle_rc", "sub": "lookup_lifecycle",
          "quick": {"cases": 2000, "max_size": 100, "workers": 4, "case_alarm": 60},
-         "thorough": {"cases": 100000, "max_size": 100, "workers": 4, "case_alarm": 60}},
+         "thorough": {"cases": 80000, "max_size": 100, "workers": 4, "case_alarm": 60}},
         # (a) reply_parser, libFuzzer (even workers start from corpus/C15/reply_parser, odd ones from an empty corpus).
         # Non-termination is part of the property: the harness's own CPU-time watchdog (5 s of CPU inside one onUdpRecv call) saves the
         # case as a text replay and exits with status 3 (hang_is_violation: the saved text case is replayed by the rapidcheck sub);
         # a libFuzzer timeout-* artifact (25 s wall for a datagram of <= 4 KiB) counts as well.
         {"target": "c15_reply_fuzz", "sub": "reply_parser", "dict": _DICT, "timeout_is_violation": True, "hang_is_violation": True,
          "quick": {"runs": 125000, "max_len": 600, "workers": 4, "unit_timeout": 25},
-         "thorough": {"runs": 3000000, "max_len": 1500, "workers": 8, "unit_timeout": 25}},
+         "thorough": {"runs": 1000000, "max_len": 1000, "workers": 8, "unit_timeout": 25}},
     ],
     "assumptions": [
         "(a) datagrams are at most 4096 bytes (UdpSocket's receive buffer: nothing longer reaches onUdpRecv); one server is configured, so the first server-failure reply completes the lookup with kAllDnsFail",
